@@ -268,6 +268,25 @@ def render_path(f, path, limit=14):
     return " -> ".join(out)
 
 
+def env_from_ancestors(f, node):
+    """Boolean-local facts implied by the branches that enclose `node`
+    (`if (adding_pending) { ... node ... }` => adding_pending is true at node)."""
+    env = {}
+    child = node
+    for a in f.ancestors(node):
+        if a["k"] == "if":
+            cond, then, els = f.deref(a["c"][2]), f.deref(a["c"][3]), f.deref(a["c"][4])
+            atom = _cond_atom(f, cond)
+            if atom is not None:
+                name, pol = atom
+                if then is not None and f.within(child, then):
+                    env.setdefault(name, pol)
+                elif els is not None and f.within(child, els):
+                    env.setdefault(name, not pol)
+        child = a
+    return env
+
+
 def must_follow(f, node, satisfied, edge_satisfied=None, track_env=True):
     """None if on every normal path from `node` to the function exit an element
     satisfying `satisfied` occurs (or a branch edge satisfying edge_satisfied is
@@ -276,7 +295,11 @@ def must_follow(f, node, satisfied, edge_satisfied=None, track_env=True):
     if pos is None:
         return [("no-cfg-position", [node.get("l", 0)])]
     ex = Explorer(f, track_env=track_env)
-    return ex.find_path(pos, satisfied, "EXIT", edge_blocked=edge_satisfied)
+    start_env = env_from_ancestors(f, node) if track_env else {}
+    for k in list(start_env):
+        if k in ex.multi_assigned():
+            del start_env[k]
+    return ex.find_path(pos, satisfied, "EXIT", edge_blocked=edge_satisfied, start_env=start_env)
 
 
 def must_precede(f, node, satisfied, edge_satisfied=None, track_env=True):
